@@ -302,6 +302,23 @@ pub fn c02(a: &Args) -> CaseSet {
                 add_expect(&mut cs, &tb, p, vec![Query::Vars, Query::Eval(nv)], text.clone(), "long-mixed-level", m + 1, &want, &vars);
             }
         }
+        // a flagged operator between two literals whose nearest looser-or-equal operator on the left is a DIFFERENT operator of
+        // the same priority, 30..70 tighter operators away (the search for that left neighbour must not be bounded)
+        for (ti, opn) in [(0usize, "max"), (0, "atan2"), (1, "-"), (1, "&")] {
+            let tb = std_tables()[ti].clone();
+            let ix = |n: &str| tb.iter().position(|o| o.repr == n && o.bin.is_some()).unwrap();
+            for k in (if a.thorough { vec![30usize, 31, 32, 33, 34, 48, 64, 65, 70] } else { vec![31usize, 32, 33, 40] }) {
+                let mut rest: Vec<(usize, Atom)> = vec![(ix(opn), Atom::Lit("2".into()))];
+                for j in 0..k { rest.push((ix("*"), if j % 7 == 3 { Atom::Var("y".into()) } else { Atom::Lit("1".into()) })); }
+                rest.push((ix("+"), Atom::Lit("3".into())));
+                let ch = Chain { first: Box::new(Atom::Var("x".into())), rest };
+                let text = render(&ch, &tb, &mut r, &RenderCfg::plain());
+                let vars = sorted_vars(&ch); let want = ref_chain(&ch, &tb, &vars); let nv = vars.len();
+                for p in [Prog::Flat(text.clone()), Prog::FlatWo(text.clone()), Prog::Compile(Box::new(Prog::FlatWo(text.clone()))), Prog::Deep(text.clone())] {
+                    add_expect(&mut cs, &tb, p, vec![Query::Vars, Query::Eval(nv)], format!("x {opn} 2 *..({k} factors)..* + 3"), "flagged-operator-far-from-its-left-neighbour", k + 3, &want, &vars);
+                }
+            }
+        }
         // wide levels with literals (129..200 operands: several machine words of operands; folding shortens the folded
         // form, the unfolded one keeps every operand)
         for i in 0..(if a.thorough { 32 } else { 8 }) {
@@ -589,6 +606,35 @@ pub fn c04(a: &Args) -> CaseSet {
         let prog = Prog::Subs(Box::new(mk(te.clone(), i)), vec![(v.clone(), mk(rt.clone(), i / 3))]);
         add_expect(&mut cs, &tb, prog, vec![Query::Vars, Query::Eval(nv)], format!("{te} with {v}->{rt}"), "subs-keeps-the-names", n_operands(&want_chain), &want, &wv);
     }
+    // derived expressions over MANY names: two operands with interleaved variable lists whose union exceeds every inline
+    // buffer (16), combined by name and by the overloaded operators, then used: the sorted union, the n-th value for the n-th name
+    for (na, nb, shape) in [(9usize, 9usize, 0usize), (15, 2, 1), (2, 15, 2), (10, 10, 3), (17, 3, 1), (8, 9, 0), (12, 12, 2)] {
+        let name = |k: usize| format!("v{k:02}");
+        // interleave: shape 0 alternates, 1 puts the second operand's names at both ends, 2 the first operand's, 3 blocks of two
+        let (mut an, mut bn): (Vec<String>, Vec<String>) = (vec![], vec![]);
+        let total = na + nb; let mut k = 0;
+        while an.len() < na || bn.len() < nb { let to_a = match shape { 0 => k % 2 == 0, 1 => !(k == 0 || k + 1 >= total), 2 => k == 0 || k + 1 >= total || bn.len() >= nb, _ => (k / 2) % 2 == 0 };
+            if (to_a && an.len() < na) || bn.len() >= nb { an.push(name(k)); } else { bn.push(name(k)); } k += 1; }
+        let ta = an.join("+"); let tbt = bn.join("*");
+        let ix = |n: &str| tb.iter().position(|o| o.repr == n).unwrap();
+        let mut vars: Vec<String> = an.iter().chain(bn.iter()).cloned().collect(); vars.sort(); vars.dedup();
+        let pos = |n: &String| Term::Var(vars.iter().position(|w| w == n).unwrap());
+        let term_a = an.iter().skip(1).fold(pos(&an[0]), |acc, n| tbin(ix("+"), acc, pos(n)));
+        let term_b = bn.iter().skip(1).fold(pos(&bn[0]), |acc, n| tbin(ix("*"), acc, pos(n)));
+        for (oi, opn) in ["-", "/", "max"].iter().enumerate() {
+            let want = tbin(ix(opn), term_a.clone(), term_b.clone());
+            let progs = vec![Prog::Bin(opn.to_string(), Box::new(Prog::Flat(ta.clone())), Box::new(Prog::Deep(tbt.clone()))), Prog::Bin(opn.to_string(), Box::new(Prog::Deep(ta.clone())), Box::new(Prog::Flat(tbt.clone()))),
+                             Prog::ToFlat(Box::new(Prog::Bin(opn.to_string(), Box::new(Prog::Deep(ta.clone())), Box::new(Prog::Deep(tbt.clone())))))];
+            for (pi, prog) in progs.into_iter().enumerate() {
+                if (oi + pi) % 2 == 1 && !a.thorough { continue }
+                let qs = if pi == 2 { vec![Query::Vars, Query::Eval(vars.len()), Query::EvalVec(vars.len())] } else { vec![Query::Vars, Query::Eval(vars.len())] };   // the consuming evaluation exists for flat expressions only
+                add_expect(&mut cs, &tb, prog, qs, format!("({na} names) {opn} ({nb} names), interleaved"), "union-of-many-names", na + nb, &want, &vars);
+            }
+            if oi < 2 { let k = if oi == 0 { 1 } else { 3 };
+                let prog = Prog::Arith(k, Box::new(Prog::Deep(ta.clone())), Box::new(Prog::Flat(tbt.clone())));
+                add_expect(&mut cs, &tb, prog, vec![Query::Vars, Query::Eval(vars.len())], format!("({na} names) {opn} ({nb} names) by the overloaded operator"), "union-of-many-names", na + nb, &want, &vars); }
+        }
+    }
     cs
 }
 
@@ -629,6 +675,15 @@ pub fn c07(a: &Args) -> CaseSet {
                 }
             }
         } }
+    }
+    // an extra operand inside the parentheses of a function applied to a literal, a constant, a variable
+    {
+        let t0 = std_tables()[0].clone();
+        for text in ["sin(2 3)", "sin(2 5+x)", "1+cos(3 y)*4", "-(2 7)", "sin(2 PI*y)^x", "sin(PI 2)", "cos(x 3)", "sin cos(2 3)", "-sin(1 2)+x", "ln(2 x)", "sin((2 3))", "sin(2 (3))", "max(2 3, 1)", "max(1, 2 3)"] {
+            for prog in [Prog::Flat(text.into()), Prog::FlatWo(text.into()), Prog::Deep(text.into())] {
+                cs.add(&t0, prog, vec![Query::Vars], format!("[extra-operand-in-function-argument] {text:?}"), "extra-operand-in-function-argument", 3, |obs| (Some(obs[0] == Obs::E), format!("accepted or crashed: {}", pretty_obs(&obs[0]))));
+            }
+        }
     }
     // nested call notation with ONE parenthesis deleted, at every position, and one inserted at every position
     {
@@ -689,6 +744,21 @@ pub fn c07(a: &Args) -> CaseSet {
             damaged.push(("ends-in-operator", format!("7 {plain} {op}")));
             damaged.push(("ends-in-operator", format!("({plain}) x {op}")));
             damaged.push(("ends-in-operator", format!("x 7 {op}")));
+        }
+        // an extra operand directly beside an operand INSIDE the text (behind or in front of a number or a variable)
+        {
+            let mut spots: Vec<(usize, usize)> = vec![];   // operand as char range [from, to)
+            let mut i = 0; let mut depth_brace = 0;
+            while i < chars.len() {
+                if chars[i] == '{' { let from = i; while i < chars.len() && chars[i] != '}' { i += 1; } i = (i + 1).min(chars.len()); spots.push((from, i)); let _ = depth_brace; depth_brace = 0; continue }
+                if chars[i].is_alphanumeric() || chars[i] == '_' || chars[i] == '.' { let from = i; while i < chars.len() && (chars[i].is_alphanumeric() || chars[i] == '_' || chars[i] == '.') { i += 1; }
+                    let w: String = chars[from..i].iter().collect(); if !tb.iter().any(|o| o.repr == w && !o.constant) { spots.push((from, i)); } continue }
+                i += 1;
+            }
+            for _ in 0..3.min(spots.len()) { let (from, to) = *r.pick(&spots);
+                let a: String = chars[..to].iter().collect::<String>() + " 7" + &chars[to..].iter().collect::<String>();
+                let b: String = chars[..from].iter().collect::<String>() + "7 " + &chars[from..].iter().collect::<String>();
+                damaged.push(("extra-operand-inside", a)); damaged.push(("extra-operand-inside", b)); }
         }
         damaged.push(("extra-operand-after", format!("{plain} 7")));
         damaged.push(("extra-operand-before", format!("7 {plain}")));
@@ -909,6 +979,8 @@ pub fn c11(a: &Args) -> CaseSet {
     let mut r = Rng::new(a.seed ^ 0x11);
     let t0 = std_tables()[0].clone();
     for (e, m) in [("x^2/y/2", vec![("y", "4")]), ("x+y", vec![("x", "y"), ("y", "x")]), ("x*2", vec![("x", "x+1")]), ("x+y*z", vec![]), ("sin(x)+1+2", vec![("x", "3")]),
+                   // a variable that is the sole operand of a function, replaced by a function of one variable
+                   ("ln(x)+1", vec![("x", "-y")]), ("cos(x)*z", vec![("x", "ln(y)")]), ("sin(x)", vec![("x", "cos(x)")]), ("-ln(x)", vec![("x", "sin(-z)")]), ("z+cos(sin(x))", vec![("x", "-cos(y)")]),
                    // names whose byte order differs from their case-insensitive order
                    ("R*a+b", vec![("a", "x+Y")]), ("x/Y-Z*w", vec![]), ("_b+B+b", vec![("b", "Z*_a")]), ("a-B", vec![("a", "B"), ("B", "a")]), ("Zeta+alpha*Beta", vec![("alpha", "Gamma-delta")])] {
         for deep in [false, true] {
@@ -1319,7 +1391,7 @@ const NODIFF_UN: [&str; 6] = ["abs", "signum", "floor", "ceil", "round", "cbrt"]
 fn op_idx(tb: &[OpSpec], name: &str) -> usize { tb.iter().position(|o| o.repr == name).unwrap_or_else(|| panic!("no operator {name}")) }
 
 fn gen_diff(r: &mut Rng, tb: &[OpSpec], depth: usize, allow_nodiff: bool, cond_ok: bool) -> Chain {
-    let leaf = |r: &mut Rng| if r.chance(1, 2) { Atom::Var(["x", "y", "z"][r.below(3)].to_string()) } else { Atom::Lit(["0.5", "2", "1.3", "3", "1", "0", "0.25", "1", "0"][r.below(9)].to_string()) };
+    let leaf = |r: &mut Rng| if r.chance(1, 2) { Atom::Var(["x", "Y", "z"][r.below(3)].to_string()) } else { Atom::Lit(["0.5", "2", "1.3", "3", "1", "0", "0.25", "1", "0"][r.below(9)].to_string()) };
     let atom = |r: &mut Rng, depth: usize| -> Atom {
         let c = r.below(12);
         if depth > 3 || c < 4 { leaf(r) }
@@ -1503,6 +1575,24 @@ pub fn c09(a: &Args) -> CaseSet {
     // differences of the derivative one step shorter (variables vanish on the way; mixed partials in both orders)
     // ... and expressions whose derivative with respect to one variable is the expression itself (exp of a sum with slope 1),
     // where "nothing changed" must not be taken for "nothing left to do"
+    // single derivatives taken one after the other on FLAT expressions (every step converts flat -> deep -> flat), also
+    // where a derivative collapses to one variable or a number while the other variables stay listed
+    for text in ["x*y+z", "x*sin(y)", "x*y", "a*b+c", "x*y^2", "x+y+z", "sin(x)*y+z*z"] {
+        set_table(&tb);
+        use exmex::Express;
+        let fx = FE::parse_wo_compile(Box::leak(text.to_string().into_boxed_str())).unwrap();
+        let names: Vec<String> = fx.var_names().to_vec(); let nv = names.len();
+        for i in 0..nv { for j in 0..nv { for third in [None, Some((i + j + 1) % nv)] {
+            for (bi, base) in [Prog::Flat(text.to_string()), Prog::ToFlat(Box::new(Prog::Deep(text.to_string())))].into_iter().enumerate() {
+                if (i + j + bi) % 2 == 1 && third.is_some() { continue }
+                let mut p = Prog::Partial(vec![j], 0, Box::new(Prog::Partial(vec![i], 0, Box::new(base))));
+                if let Some(k) = third { p = Prog::Partial(vec![k], 0, Box::new(p)); }
+                let names2 = names.clone();
+                cs.add(&tb, p, vec![Query::Vars, Query::Eval(nv)], format!("one after the other: d/d{i}, d/d{j}{} of the flat {text}", third.map(|k| format!(", d/d{k}")).unwrap_or_default()), "sequential-single-derivatives-on-flat", 3, move |obs| {
+                    match &obs[0] { Obs::S(v) => (Some(*v == names2), format!("variables {v:?}, the antiderivative has {names2:?}")), other => (Some(false), format!("{}", pretty_obs(other))) } });
+            }
+        } } }
+    }
     for text in ["x*y^2", "(a+b)*c^3", "x^2*y^3*z", "a*b*c", "x*y^2+z*x", "y^2*x-z/y", "a^2*c^3+b", "x*z^2/y",
                  "exp(x+2*y)", "exp(x+y)*z", "exp(y+x*z)", "exp(x+3*y)+exp(z+2*x)", "x+exp(y+3*z)", "exp(x)*exp(2*y)", "sinh(x)+cosh(x)+y*x", "exp(a+b*b+2*c)"] {
         set_table(&tb);
